@@ -33,15 +33,33 @@ INT_MIN = -2147483648
 
 
 # ---------------------------------------------------------------------------------- running
-def run_pair(ctx, script, h, d, what, timeout=900):
-    """-> (impl_lines, model_lines, failure|None); oracle failures come from the harness (rc 3)"""
-    rc1, impl, err1 = ctx.run_lines(h, script, timeout=timeout)
+_STATE = {"fails": 0, "skipped": 0}
+
+
+def run_pair(ctx, script, h, d, what, timeout=None, env=None):
+    """-> (impl_lines, model_lines, failure|None); oracle failures come from the harness (rc 3).
+    A script normally runs in well under 3 s; a run that exceeds the timeout is a hang of the
+    library's loops (reported as a crash-kind failure with the script as the failing input)."""
+    if timeout is None:
+        timeout = 45 if ctx.tier == "quick" else 300
+        # once several failing inputs are known, stop burning time (a hanging library costs a full
+        # timeout per script); the failures already found are reported
+        if _STATE["fails"] >= 4:
+            _STATE["skipped"] += 1
+            return [], [], None
+    rc1, impl, err1 = ctx.run_lines(h, script, timeout=timeout, env=env)
+    if rc1 != 0:
+        _STATE["fails"] += 1
     if rc1 != 0:
         kind = "oracle" if (rc1 == 3 and "ORACLE:" in err1) else "crash"
         msg = err1.strip().splitlines()
         det = next((l for l in msg if l.startswith("ORACLE:")), err1[-1500:])
+        if rc1 == 124:
+            det = "HANG: the harness did not finish within %ds (after %d observations)" % (timeout, len(impl))
+        if rc1 == -14:
+            det = "HANG: one library call did not return within 15 s (harness watchdog; after %d observations)" % len(impl)
         return impl, [], {"kind": kind, "what": what + (": direct oracle" if kind == "oracle" else ": harness exit %d" % rc1),
-                          "detail": det, "script": script, "impl": impl[-6:]}
+                          "detail": det, "script": script, "impl": impl[-6:], "nobs": len(impl)}
     if not ctx.driver_ok:
         return impl, [], None
     rc2, model, err2 = ctx.run_lines(d, script, timeout=timeout)
@@ -50,17 +68,18 @@ def run_pair(ctx, script, h, d, what, timeout=900):
                              "script": script, "detail": err2}
     k = common.first_diff(impl, model)
     if k is not None:
+        _STATE["fails"] += 1
         return impl, model, {"kind": "exact", "what": what, "line": k, "script": script,
                              "impl": impl[max(0, k - 2):k + 3], "model": model[max(0, k - 2):k + 3]}
     return impl, model, None
 
 
 def fails_same(ctx, script, h, d, kind):
-    _, _, f = run_pair(ctx, script, h, d, "shrink", timeout=120)
+    _, _, f = run_pair(ctx, script, h, d, "shrink", timeout=8, env={"C11_WATCHDOG": "2"})
     return f is not None and (f["kind"] == kind or (kind in ("oracle", "crash") and f["kind"] in ("oracle", "crash")))
 
 
-def shrink(ctx, f, h, d, budget=25.0):
+def shrink(ctx, f, h, d, budget=40.0):
     """delta-debug the failing script (lines), keep the failure kind; returns the failure with a
     minimal script (list of lines) and verbose dumps"""
     lines = [l for l in f["script"].splitlines() if l.strip() and not l.startswith("verbose") and not l.startswith("#")]
@@ -69,6 +88,8 @@ def shrink(ctx, f, h, d, budget=25.0):
     # cut the tail after the failing op first
     if f.get("line") is not None:
         lines = lines[:f["line"] + 1]
+    elif "HANG" in f.get("detail", "") and f.get("impl") is not None and "nobs" in f:
+        lines = lines[:f["nobs"] + 1]
     elif "op #" in f.get("detail", ""):
         try:
             k = int(f["detail"].split("op #")[1].split()[0])
@@ -92,7 +113,7 @@ def shrink(ctx, f, h, d, budget=25.0):
                 break
             n = min(len(lines), n * 2)
     script = "verbose 1\n" + "\n".join(lines) + "\n"
-    impl, model, g = run_pair(ctx, script, h, d, f["what"], timeout=120)
+    impl, model, g = run_pair(ctx, script, h, d, f["what"], timeout=20, env={"C11_WATCHDOG": "3"})
     out = dict(g or f)
     out["what"] = f["what"]
     out["script"] = script.splitlines()
@@ -145,6 +166,8 @@ def enumerate_reps(ctx, h, d, seqs, fails):
         if f:
             fails.append(f)
             continue
+        if len(impl) <= ends[-1]:
+            continue            # skipped after earlier failures
         for s, e in zip(batch, ends):
             rep = impl[e].split("= ", 1)[1]
             evals += 1
@@ -505,6 +528,7 @@ def run(ctx):
         if len(samples) < 3 and len(sc) < 3000:
             samples.append({"script": sc.splitlines(), "impl": impl})
     dist["streams"]["random_histories"] = nh
+    dist["streams"]["scripts_skipped_after_failures"] = _STATE["skipped"]
     dist["streams"]["random_wall_s"] = round(time.time() - t0, 1)
 
     # ---- raw createRect + clip streams
@@ -519,9 +543,26 @@ def run(ctx):
             k = op.split()[0] + "=" + ob.split()[0]
             dist["bool_results"][k] = dist["bool_results"].get(k, 0) + 1
 
+    # ---- the excluded point of theorem bbox_den (guard InRange: no span starts at INT_MIN), executed on
+    # the real code: sraRgnBBox seeds xmax/ymax with 1-INT_MAX, so a region that ends at INT_MIN+1
+    # gets a bounding box one pixel too wide.  Reported as a finding when the registry knows it,
+    # otherwise recorded in the evidence (proposed finding / fix: fixes/C11-bbox-seed.diff).
+    wit = "verbose 1\nmk r0 %d 0 %d 5\nbbox r1 r0\n" % (INT_MIN, INT_MIN + 1)
+    rc, wimpl, werr = ctx.run_lines(h, wit, timeout=60)
+    bad = (rc == 3 and "ORACLE:" in werr)
+    dist["excluded_point_bbox_at_INT_MIN"] = {
+        "script": wit.splitlines(), "impl": wimpl,
+        "result": "bounding box wrong (one pixel too wide) — known limitation of the 1-INT_MAX seed" if bad
+                  else ("correct" if rc == 0 else "harness exit %d" % rc)}
+    if bad and any(k.get("id") == FINDING_BBOX for k in ctx.known):
+        fails.append({"kind": "oracle", "what": "sraRgnBBox at INT_MIN", "detail": werr.strip()[-300:],
+                      "script": wit, "impl": wimpl, "finding": FINDING_BBOX})
+
     # ---- shrink what failed
     out = []
-    for f in fails[:3]:
+    for f in [g for g in fails if g.get("finding")]:
+        g = dict(f); g["script"] = f["script"].splitlines(); out.append(g)
+    for f in [g for g in fails if not g.get("finding")][:3]:
         try:
             out.append(shrink(ctx, f, h, d))
         except Exception as e:  # never lose a failure because the shrinker failed
@@ -532,13 +573,15 @@ def run(ctx):
         "distinct_nontrivial": len(nontriv) + ex_nontriv,
         "rule": "one evaluation = one op executed by the real library, compared exactly with the model and checked by the bitmap oracle; non-trivial = distinct (op in or/and/sub, exact representation of destination, exact representation of source) with both operands non-empty (random streams: counted from the outputs; exhaustive: 3 x (non-empty representations)^2)",
         "samples": samples, "distribution": dist, "failures": out,
-        "exhaustive": exhaustive_ok and not fails,
+        "exhaustive": exhaustive_ok and not fails and not _STATE["skipped"],
         "partial": PARTIAL, "assumptions": ASSUMPTIONS,
         "trusted_extra": ["harness/c11.c's bitmap oracle (coordinate compression + 64-bit row bitsets), ~150 lines of C independent of the Lean model"],
     }
 
 
-PARTIAL = []
+FINDING_BBOX = "C11-bbox-intmin"
+PARTIAL = ["bbox_den/bbox_wf carry the guard InRange (coordinates are C ints and no span starts at INT_MIN): for a region ending at INT_MIN+1 the code's 1-INT_MAX seed makes the box one pixel too wide; the point is executed on the real code every run (distribution.excluded_point_bbox_at_INT_MIN)",
+           "the rectangle iterator is modelled by the sequence it yields (Region.rects), not by a small-step model of sPtrs/ptrPos; the real iterator (all four direction pairs) is driven by the correspondence run"]
 ASSUMPTIONS = [
     "C int arithmetic does not overflow: sraRgnOffset / sraClipRect add coordinates; the model uses unbounded Int and the generators keep |coord|+|delta| < 2^31 (signed overflow is undefined behaviour in C)",
     "operands are well-formed regions, i.e. built by the library's own API (sraRgnCreateRect returns the empty region for empty/inverted rectangles, so every region the API can build is well-formed: theorem wf_of_api)",
